@@ -112,7 +112,7 @@ func (md *Metadata) Validate() error {
 		return ValidationError("chart.metadata.name is required")
 	}
 
-	if md.Name != filepath.Base(md.Name) {
+	if md.Name != filepath.Base(md.Name) || md.Name == string(filepath.Separator) {
 		return ValidationErrorf("chart.metadata.name %q is invalid", md.Name)
 	}
 
